@@ -198,6 +198,74 @@ func runRoundScenario(seed uint64, size int, t *Trace) error {
 			stream []byte
 		}
 		plans := make([]plan, nsrv)
+		for i := range fs {
+			i := i
+			fs[i].ss.mu.Lock()
+			fs[i].ss.onAccept = func() {
+				logMu.Lock()
+				acceptLog = append(acceptLog, i)
+				logMu.Unlock()
+			}
+			fs[i].ss.mu.Unlock()
+		}
+		// overlapping rounds: a first round is started and held inside its first attempt (every server keeps
+		// the connection open); the round below runs to its end meanwhile and may learn of a ban; then the held
+		// connection is dropped and the first round goes on. It must decide with what the client knows NOW.
+		overlap := nsrv >= 3 && r.Chance(20)
+		hung := -1
+		var rel chan struct{}
+		var r1done chan [2]bool
+		lat1 := latest
+		gcaAtBegin := curGCA.Pub // a round reads the GCA key once, when it starts
+		if overlap {
+			rel = make(chan struct{})
+			for i := range fs {
+				fs[i].ss.setHang(rel)
+			}
+			logMu.Lock()
+			acceptLog = acceptLog[:0]
+			logMu.Unlock()
+			r1done = make(chan [2]bool, 1)
+			cc := c
+			go func() {
+				var ok, died bool
+				func() {
+					defer func() {
+						if recover() != nil {
+							died = true
+						}
+					}()
+					ok = cc.VerifSyncRound(lat1)
+				}()
+				r1done <- [2]bool{ok, died}
+			}()
+			early := false
+			for w := 0; w < 3000 && hung < 0 && !early; w++ {
+				logMu.Lock()
+				if len(acceptLog) > 0 {
+					hung = acceptLog[0]
+				}
+				logMu.Unlock()
+				if hung < 0 {
+					select {
+					case <-r1done:
+						early = true // nothing eligible: the round ended without dialling anybody
+					case <-time.After(time.Millisecond):
+					}
+				}
+			}
+			if hung < 0 {
+				close(rel)
+				if !early {
+					<-r1done
+				}
+				overlap = false
+				t.Count("round.overlap-not-started")
+			} else {
+				t.Count("round.overlap")
+				t.Line("cl.round.begin latest=%d choices=%s:fail", lat1, hx(fs[hung].key.Pub[:]))
+			}
+		}
 		off := origin + uint32(r.Intn(20)) - uint32(r.Intn(3))
 		// the latest reading the round is started with, relative to the window the replies describe: inside it,
 		// exactly at its end (4031/4032/4033 slots ahead), far ahead, and behind its start (unsigned wrap)
@@ -226,7 +294,20 @@ func runRoundScenario(seed uint64, size int, t *Trace) error {
 			var list []server.AuthorizedServer
 			var mig *server.EquipmentMigration
 			signer := curGCA.Priv
-			switch r.pick([]int{30, 25, 12, 8}) {
+			kindL := r.pick([]int{30, 25, 12, 8})
+			if overlap && r.Chance(70) {
+				kindL = 4
+			}
+			switch kindL {
+			case 4: // (while another round is held) the GCA bans every server but the one that answers
+				for j := range fs {
+					if j != i {
+						cs := st.Servers[fs[j].key.Pub]
+						as := server.AuthorizedServer{PublicKey: fs[j].key.Pub, Banned: true, Location: myIP, HttpPort: 5, TcpPort: cs.TcpPort, UdpPort: cs.UdpPort}
+						as.GCAAuthorization = glow.Sign(as.SigningBytes(), signer)
+						list = append(list, as)
+					}
+				}
 			case 1: // ban / re-announce some of the known servers, add a new one
 				for j := range fs {
 					if r.Chance(40) {
@@ -297,7 +378,11 @@ func runRoundScenario(seed uint64, size int, t *Trace) error {
 			}
 			body := mkReplyBody(dev.Pub, off, bits, mig, list, time.Now().Unix())
 			good := frame(body, fs[i].key.Priv)
-			switch r.pick([]int{55, 12, 12, 12, 9}) {
+			modeK := r.pick([]int{55, 12, 12, 12, 9})
+			if overlap && r.Chance(80) {
+				modeK = 0
+			}
+			switch modeK {
 			case 0:
 				plans[i] = plan{"reply", good}
 			case 1:
@@ -308,6 +393,9 @@ func runRoundScenario(seed uint64, size int, t *Trace) error {
 				plans[i] = plan{"reply", frame(body, detKey(seed, 60).Priv)} // signed by another key
 			default:
 				plans[i] = plan{"reply", r.Bytes(r.Intn(900))}
+			}
+			if overlap && i == hung {
+				plans[i] = plan{"reset", nil}
 			}
 			fs[i].ss.set(plans[i].mode, plans[i].stream)
 			i := i
@@ -321,16 +409,6 @@ func runRoundScenario(seed uint64, size int, t *Trace) error {
 		logMu.Lock()
 		acceptLog = acceptLog[:0]
 		logMu.Unlock()
-		for i := range fs {
-			i := i
-			fs[i].ss.mu.Lock()
-			fs[i].ss.onAccept = func() {
-				logMu.Lock()
-				acceptLog = append(acceptLog, i)
-				logMu.Unlock()
-			}
-			fs[i].ss.mu.Unlock()
-		}
 		stop := make(chan struct{})
 		var wg sync.WaitGroup
 		sink.take()
@@ -339,7 +417,7 @@ func runRoundScenario(seed uint64, size int, t *Trace) error {
 		// is allowed to die of it (the code panics on purpose) but not to live on with a list in memory that is
 		// not the list on disk: if it survives, the round is recorded and compared like any other.
 		mapPath := filepath.Join(dir, client.GCAServerMapFile)
-		fault := r.Chance(8)
+		fault := r.Chance(8) && !overlap
 		if fault {
 			if os.Rename(mapPath, mapPath+".aside") == nil {
 				os.Mkdir(mapPath, 0755)
@@ -411,6 +489,65 @@ func runRoundScenario(seed uint64, size int, t *Trace) error {
 			curGCA = newGCA
 		}
 		curID = after.ShortID
+		if overlap {
+			logMu.Lock()
+			acceptLog = acceptLog[:0]
+			logMu.Unlock()
+			sink.take()
+			t1 := time.Now().Unix()
+			close(rel)
+			var res [2]bool
+			select {
+			case res = <-r1done:
+			case <-time.After(60 * time.Second):
+				t.Line("cl.roundfault what=held-round-never-returned => WEDGED")
+				return nil
+			}
+			if res[1] {
+				t.Line("cl.roundfault what=client-panicked-without-a-fault => PANIC")
+				break
+			}
+			sink.settle(40*time.Millisecond, 600*time.Millisecond)
+			var ch2 []string
+			logMu.Lock()
+			log2 := append([]int(nil), acceptLog...)
+			logMu.Unlock()
+			for _, i := range log2 {
+				p := plans[i]
+				if p.mode == "reply" {
+					replyOracle(t, seen, p.stream, dev.Pub, gcaAtBegin, fs[i].key.Pub)
+					replyOracle(t, seen, p.stream, dev.Pub, curGCA.Pub, fs[i].key.Pub)
+					ch2 = append(ch2, hx(fs[i].key.Pub[:])+":ok:"+hx(p.stream))
+				} else {
+					ch2 = append(ch2, hx(fs[i].key.Pub[:])+":fail")
+				}
+			}
+			var resent2 []string
+			id2 := true
+			after2 := c.VerifState()
+			for _, p := range sink.take() {
+				rep, err := glow.DeserializeReport(p)
+				if err != nil || !glow.Verify(dev.Pub, rep.SigningBytes(), rep.Signature) || rep.ShortID != after2.ShortID {
+					id2 = false
+				}
+				resent2 = append(resent2, fmt.Sprintf("%d.%d", rep.Timeslot, rep.PowerOutput))
+			}
+			res2 := "failed"
+			if res[0] {
+				res2 = "synced"
+			}
+			lf2 := 0
+			if c.VerifTryLock() {
+				lf2 = 1
+			}
+			t.Count("round.overlap-end:" + res2)
+			t.Line("cl.round.end latest=%d now=%d choices=%s => %s lockfree=%d sigs=%v gk=%s id=%d servers=%s disk=[%s] resent=%s", lat1, t1, strings.Join(ch2, ";"),
+				res2, lf2, id2, hx(after2.GCAPubKey[:]), after2.ShortID, canonClientServers(after2.Servers), canonClientDisk(dir), strings.Join(resent2, ","))
+			if after2.GCAPubKey != curGCA.Pub {
+				curGCA = newGCA
+			}
+			curID = after2.ShortID
+		}
 		// restart the client now and then: it must come back with the same identity and list
 		if r.Chance(25) {
 			c2, err := client.VerifNewClientNoLoop(dir)
